@@ -1196,3 +1196,6 @@ fn binop_to_float_cmp(op: &ast::BinOp) -> Option<FloatCmp> {
         _ => return None,
     })
 }
+
+#[cfg(feature = "verif-hooks")]
+pub use drops::verif_needs_drop;
